@@ -581,4 +581,84 @@ theorem timerTail_spec (start stop nameOffset : Nat) (mtoks : List Tok) (body : 
   · intro hq he hb
     exact (h4 hq (by rw [gB.2.1]; exact he) (by rw [gB.1]; exact hb)).right gB
 
+/-! ### soundness of the simplest shape: nothing is pushed -/
+
+theorem parseAlias_quiet (c : String) (toks : List Tok) (off : Nat) (s : BP α)
+    (ha : s.ext.has Gen.EXT_COMPONENT_ALIAS = false ∨ ∀ t ∈ toks, t.kind ≠ .or) :
+    Sat (parseAlias (α := α) c toks off) s (fun r s' => Same s s' ∧ r = (buildText off toks, none)) := by
+  have hsep : (if s.ext.has Gen.EXT_COMPONENT_ALIAS = true then toks.findIdx? (fun t => t.kind == .or) else none)
+      = none := by
+    rcases ha with h | h
+    · simp [h]
+    · split
+      · rw [List.findIdx?_eq_none_iff]
+        intro t ht; simpa using h t ht
+      · rfl
+  unfold parseAlias
+  refine Sat.bind (Sat.hasExt ?_)
+  simp only [hsep]
+  refine Sat.bind (Sat.mono (bpText_spec off toks s) ?_)
+  rintro _ s1 ⟨rfl, q⟩
+  exact Sat.pure ⟨q, rfl⟩
+
+/-- an ingredient without modifiers, alias separator, quantity and with a non-blank name: the tail
+    pushes nothing -/
+theorem ingredientTail_quiet (start stop modPos nameOffset : Nat) (body : Body) (note : Option Text) (s : BP α)
+    (hq : body.quantity = none)
+    (ha : s.ext.has Gen.EXT_COMPONENT_ALIAS = false ∨ ∀ t ∈ body.name, t.kind ≠ .or)
+    (hn : (buildText nameOffset body.name).isTextEmpty s.cs = false) :
+    Sat (ingredientTail (α := α) start stop modPos nameOffset [] body note) s (fun r s' => Same s s' ∧
+      r = some (.ingredient ⟨⟨⟨Modifiers.empty, Span.pos modPos⟩, none, buildText nameOffset body.name, none, none, note⟩,
+        ⟨start, stop⟩⟩)) := by
+  unfold ingredientTail
+  refine Sat.bind (Sat.mono (parseAlias_quiet "ingredient" body.name nameOffset s ha) ?_)
+  rintro ⟨name, alias⟩ s5 ⟨q5, heq⟩
+  cases heq
+  dsimp only
+  refine Sat.bind ?_
+  unfold checkEmptyName
+  refine Sat.bind (Sat.get ?_)
+  rw [q5.1, hn]
+  simp only [Bool.false_eq_true, if_false]
+  refine Sat.pure ?_
+  refine Sat.bind ?_
+  unfold parseModifiers
+  simp only [List.isEmpty_nil, if_true]
+  refine Sat.pure ?_
+  rw [hq]
+  refine Sat.bind (Sat.pure ?_)
+  exact Sat.pure ⟨q5, rfl⟩
+
+theorem cookwareTail_quiet (start stop modPos nameOffset : Nat) (body : Body) (note : Option Text) (s : BP α)
+    (hq : body.quantity = none)
+    (ha : s.ext.has Gen.EXT_COMPONENT_ALIAS = false ∨ ∀ t ∈ body.name, t.kind ≠ .or)
+    (hn : (buildText nameOffset body.name).isTextEmpty s.cs = false) :
+    Sat (cookwareTail (α := α) start stop modPos nameOffset [] body note) s (fun r s' => Same s s' ∧
+      r = some (.cookware ⟨⟨⟨Modifiers.empty, Span.pos modPos⟩, buildText nameOffset body.name, none, none, note⟩,
+        ⟨start, stop⟩⟩)) := by
+  unfold cookwareTail
+  refine Sat.bind (Sat.mono (parseAlias_quiet "cookware" body.name nameOffset s ha) ?_)
+  rintro ⟨name, alias⟩ s5 ⟨q5, heq⟩
+  cases heq
+  dsimp only
+  refine Sat.bind ?_
+  unfold checkEmptyName
+  refine Sat.bind (Sat.get ?_)
+  rw [q5.1, hn]
+  simp only [Bool.false_eq_true, if_false]
+  refine Sat.pure ?_
+  refine Sat.bind ?_
+  unfold cookwareQty
+  rw [hq]
+  refine Sat.pure ?_
+  refine Sat.bind ?_
+  unfold parseModifiers
+  simp only [List.isEmpty_nil, if_true]
+  refine Sat.pure ?_
+  have h0 : Modifiers.empty.contains Modifiers.RECIPE = false := by decide
+  simp only [h0, Bool.false_eq_true, if_false]
+  refine Sat.bind (Sat.pure ?_)
+  refine Sat.bind (Sat.pure ?_)
+  exact Sat.pure ⟨q5, rfl⟩
+
 end Cook
